@@ -353,11 +353,18 @@ func c01RowLoop(a *A, f *ssa.Function, ev ssa.Value, wantVals, wantIdents bool) 
 			continue
 		}
 		okFam := false
-		instrs(g, func(in ssa.Instruction) {
-			if c, ok := in.(*ssa.Call); ok && c.Common().StaticCallee() != nil && c.Common().StaticCallee().Name() == "CellBytes" {
-				okFam = lastField(fieldPath(c.Common().Args[0])) == fam
+		isDec := func(f *ssa.Function) bool { return f.Name() == "CellBytes" && f.Pkg == w.Repl }
+		for _, rl := range findRowLoopsDeep(w, g, isDec) {
+			// the bytes handed to the decoder, seen from g (through the call site when the loop lives in a helper)
+			dataArg := rl.Len.Common().Args[0]
+			if p, isP := strip(dataArg).(*ssa.Parameter); isP && rl.Env != nil {
+				if av, bound := rl.Env[p]; bound {
+					dataArg = av
+				}
 			}
-		})
+			okFam = lastField(fieldPath(resolve(dataArg))) == fam
+			a.touch(rl.Fn)
+		}
 		a.check(okFam, "C01-R2", "image-source@"+fn, w.pos(g.Pos()), fn+" decodes the "+fam+" image", fn+" does not decode the "+fam+" image of the row")
 	}
 }
